@@ -170,6 +170,20 @@ Fixpoint unpack (free : list bool) (l : list T) : list T :=
 Definition wls_step_free (free : list bool) (p w : list T) (e : T) : list T :=
   unpack free (wls_step (pack free p) (pack free w) e).
 
+(** the weights the code uses.  projectQ (for coordinates with qdot = u, N = I): dq_WLS = Wu dq is minimised in the
+    2-norm, so W_i = uWeight_i^2.  projectU: "relative scaling" uRelScale_i = (|u_i| w_i > 1 ? |u_i| : 1/w_i) and
+    du_WLS = du / uRelScale is minimised, so W_i = 1 / uRelScale_i^2. *)
+Definition q_step (free : list bool) (p uw : list T) (e : T) : list T :=
+  wls_step_free free p (map (fun k => nmul O k k) uw) e.
+Definition u_rel_scale (u w : T) : T :=
+  if nltb O (n1 O) (nmul O (nabs O u) w) then nabs O u else ndiv O (n1 O) w.
+Fixpoint u_weights (us uw : list T) : list T :=
+  match us, uw with
+  | u :: us', w :: uw' => let s := u_rel_scale u w in ndiv O (n1 O) (nmul O s s) :: u_weights us' uw'
+  | _, _ => [] end.
+Definition u_step (free : list bool) (p uw us : list T) (e : T) : list T :=
+  wls_step_free free p (u_weights us uw) e.
+
 (** m rows: A (list of rows), multipliers y; the step W^-1 A^T y (what a minimum-norm solve returns lies in this family) *)
 Fixpoint axpy (k : T) (a b : list T) : list T :=                        (* k a + b *)
   match a, b with x :: a', z :: b' => nadd O (nmul O k x) z :: axpy k a' b' | _, _ => [] end.
